@@ -138,6 +138,9 @@ def prepare_evo_aspirate_dispense_parameters(
     wells_list = list(np.atleast_1d(wells).flatten("F"))
     if not len(wells_list) == len(tips):
         raise ValueError(f"Invalid wells: wells and tips need to have the same length.")
+    if any(b <= a for a, b in zip(wells_list, wells_list[1:])):
+        # EVOware assigns the selected tips in ascending order to the selected wells in ascending row order
+        raise ValueError(f"Invalid wells: wells must be listed in ascending row order without repeats.")
     if labware_position is None:
         raise ValueError("Missing required parameter: position")
     grid, site = labware_position
@@ -193,6 +196,11 @@ def prepare_evo_aspirate_dispense_parameters(
             # User-specified integers from 1-8 need to be converted to Tecan logic
             tip = int_to_tip(tip)
         tecan_tips.append(tip)
+    if Tip.Any in tecan_tips:
+        raise ValueError("Invalid tips: Tip.Any can not be used in this command.")
+    if any(b.value <= a.value for a, b in zip(tecan_tips, tecan_tips[1:])):
+        # the i-th given volume belongs to the i-th given well, which only works if the tips ascend, too
+        raise ValueError("Invalid tips: tips must be listed in ascending order without repeats.")
 
     if arm is None:
         raise ValueError("Missing required paramter: arm")
@@ -450,6 +458,8 @@ def prepare_evo_wash_parameters(
         if isinstance(tip, int) and not isinstance(tip, Tip):
             # User-specified integers from 1-8 need to be converted to Tecan logic
             tip = int_to_tip(tip)
+        if not isinstance(tip, Tip) or tip == Tip.Any:
+            raise ValueError(f"Invalid tip: {tip}. Has to be an int from 1 - 8 or a Tip other than Tip.Any.")
         tecan_tips.append(tip)
 
     if waste_location is None:
@@ -624,8 +634,8 @@ def evo_wash(
         fastwash=fastwash,
         low_volume=low_volume,
     )
-    # calculate tip_selection based on tips argument
+    # calculate tip_selection based on tips argument (every tip counts once)
     tip_selection = 0
-    for tip in tips:
+    for tip in set(tips):
         tip_selection += tip.value
     return f'B;Wash({tip_selection},{waste_location[0]},{waste_location[1]},{cleaner_location[0]},{cleaner_location[1]},"{waste_vol}",{waste_delay},"{cleaner_vol}",{cleaner_delay},{airgap},{airgap_speed},{retract_speed},{fastwash},{low_volume},1000,{arm});'
